@@ -198,7 +198,7 @@ impl<'a> Gen<'a> {
     pub fn block(&mut self, max: usize) -> String {
         let n = if self.budget == 0 { 0 } else { self.rng.below(max + 1) };
         let mut out = String::new();
-        let mut prev_ends_expr = false;
+        let mut prev_ends_expr = self.depth == 0;   // top level blocks follow one another
         for _ in 0..n {
             if self.rng.chance(1, 8) { out.push_str(self.nl()); }
             if self.k.comments != Comments::None && self.rng.chance(1, 6) { let i = self.indent(); let c = self.comment(true); out.push_str(&i); out.push_str(&c); }
@@ -212,10 +212,18 @@ impl<'a> Gen<'a> {
             if self.rng.chance(1, 10) { out.push_str(if self.rng.chance(1, 2) { ";" } else { " ;" }); self.stats[3] += 1; }
             if self.k.comments != Comments::None && self.rng.chance(1, 8) { out.push(' '); let c = self.comment(false); out.push_str(&c); if !c.ends_with('\n') { out.push_str(self.nl()); } } else { out.push_str(self.nl()); }
         }
-        if self.depth > 0 && self.rng.chance(1, 5) {
+        let last = if self.depth > 0 && self.rng.chance(1, 5) { 1 } else if self.depth > 1 && self.rng.chance(1, 12) { 2 } else { 0 };
+        if last == 1 {
             let e = if self.rng.chance(1, 3) { String::new() } else { format!(" {}", self.exprs(2)) };
             out.push_str(&format!("{}return{}{}{}", self.indent(), e, if self.rng.chance(1, 8) { ";" } else { "" }, self.nl()));
-        } else if self.depth > 1 && self.rng.chance(1, 12) { out.push_str(&format!("{}break{}", self.indent(), self.nl())); }
+        } else if last == 2 { out.push_str(&format!("{}break{}", self.indent(), self.nl())); }
+        // a comment on its own line at the end of the block (it belongs to the closing `end` / `else` / `elseif` / `until`),
+        // indented as the block, as the closing token, or not at all
+        if self.depth > 0 && self.k.comments != Comments::None && self.rng.chance(1, 8) {
+            let ind = match self.rng.below(4) { 0 => String::new(), 1 => "\t".repeat(self.depth - 1), 2 => " ".repeat(self.rng.below(9)), _ => self.indent() };
+            let c = self.comment(true);
+            out.push_str(&ind); out.push_str(&c);
+        }
         out
     }
     pub fn program(&mut self) -> String {
